@@ -409,6 +409,14 @@ func (cc *Conn) doInternal(req *pool.Message) (*pool.Message, error) {
 		return nil, errors.New("invalid token")
 	}
 
+	// The token handler below needs the request's message ID after it has handed the response to the caller, who
+	// owns the request again from that moment (and may have released it): fix type and message ID now (writeMessage
+	// would do it otherwise) and keep a copy.
+	req.UpsertType(message.Confirmable)
+	if !message.ValidateMID(req.MessageID()) {
+		req.SetMessageID(cc.GetMessageID())
+	}
+	reqMessageID := req.MessageID()
 	respChan := make(chan *pool.Message, 1)
 	if _, loaded := cc.tokenHandlerContainer.LoadOrStore(token.Hash(), func(w *responsewriter.ResponseWriter[*Conn], r *pool.Message) {
 		r.Hijack()
@@ -419,7 +427,7 @@ func (cc *Conn) doInternal(req *pool.Message) (*pool.Message, error) {
 		verifhook.Yield("udp.doInternal.afterHandOver", token.Hash())
 		// A response is an implicit acknowledgement of the confirmable request (RFC 7252 5.2.2): when it
 		// overtakes the empty ACK, or the ACK is lost, stop waiting for (and retransmitting for) the ACK.
-		if elem, ok := cc.midHandlerContainer.LoadAndDelete(req.MessageID()); ok {
+		if elem, ok := cc.midHandlerContainer.LoadAndDelete(reqMessageID); ok {
 			elem.ReleaseMessage(cc)
 			elem.handler(w, r)
 		}
